@@ -7,12 +7,13 @@ THEOREMS = ["UrcuVerif.Handshake.no_lost_wakeup", "UrcuVerif.Handshake.gp_futex_
             "UrcuVerif.Handshake.wake_wakes", "UrcuVerif.Handshake.test_sees_sleeper",
             "UrcuVerif.Handshake.lost_wakeup_without_fences", "UrcuVerif.Handshake.inv_step",
             "UrcuVerif.WaitNode.waiter_teardown_safe", "UrcuVerif.WaitNode.waiter_no_lost_wakeup",
-            "UrcuVerif.WaitNode.inv_step"]
+            "UrcuVerif.WaitNode.inv_step",
+            "UrcuVerif.QsbrHs.qsbr_no_lost_wakeup", "UrcuVerif.QsbrHs.qsbr_armed_visible", "UrcuVerif.QsbrHs.inv_step"]
 TRUSTED = ["Lean 4.33 kernel; axioms ⊆ {propext, Classical.choice, Quot.sound}",
            "x86-TSO machine; futex contract (FUTEX_WAIT checks the value and sleeps atomically; spurious/EINTR returns unconstrained; system calls drain the store buffer); sys_membarrier = forced fence",
            "liveness is proved as 'sleeper always has a non-stuck waker with a strictly decreasing own-step measure'; 'eventually returns' additionally needs a fair scheduler",
            "lock-order deadlock freedom (rcu_gp_lock → rcu_registry_lock) is checked by the runtime's deadlock detector on explored schedules, not proved",
-           "tie: Driver/Gp.lean event-level replay of the real wait_for_readers/wait_gp/wake_up_gp/urcu-wait.h under the shim (explored schedules only); qsbr (waiting-flag handshake) and bp (poll loop, no futex) are covered by the trace tie and the deadlock/budget detectors only"]
+           "tie: Driver/Gp.lean event-level replay of the real wait_for_readers/wait_gp/wake_up_gp/urcu-wait.h under the shim (explored schedules only); qsbr's two-level waiting-flag handshake has its own TSO model and theorem (Handshake/QsbrTso.lean); bp has no futex (poll loop), covered by the trace tie and the budget detector"]
 OWN = {"DEADLOCK", "BUDGET", "SELFLOCK", "BADUNLOCK"}
 
 
